@@ -133,6 +133,16 @@ CHECKS["C07"] = dict(
          "values beyond the 32-bit-safe range are pruned and counted.",
     technique="TLA+ executable specification (printer + evaluator + reparse invariant) enumerated by TLC + exhaustive replay", ref="DESIGN.md §3 C07")
 
+CHECKS["C10"] = dict(
+    text="PongoInherit.tla defines the rendering of level k of a chain as the base document with every block replaced by the most-derived "
+         "definition at or below k, Super as the next definition below, and nested blocks dispatching over the whole chain; TLC enumerates "
+         "all chains to the bound (7 definition shapes per level and block incl. nested blocks before Super, blocks in if/for) and checks "
+         "ParentUnaffected and OutsideIgnored on the definition. Every template of every chain is compiled and rendered through an "
+         "in-memory loader and compared with Render(chain, k); chains whose blocks contain each other without end run isolated and must "
+         "fail with an error; the invalid shapes must be compile errors.",
+    note="Trusted: TLC, the harness's chain printer. Bounds: depth 1 full + depth 2/3 reduced shapes (quick); depth 1-3 (thorough, ~1e5 chains).",
+    technique="TLA+ executable specification enumerated by TLC + exhaustive replay of every template of every chain", ref="DESIGN.md §3 C10")
+
 PENDING = {}
 
 def main():
